@@ -134,6 +134,10 @@ func genCmd(rt *rapid.T) Cmd {
 		d = append(d, w)
 	}
 	c.Description = strings.Join(d, " ")
+	if rapid.IntRange(0, 59).Draw(rt, "pasted") == 30 {
+		// a pasted log: one word hundreds of times in one field (counters narrower than int wrap at 256 / 65536)
+		c.Description += " " + strings.TrimSpace(strings.Repeat(genWord(rt, "pword")+" ", rapid.SampledFrom([]int{255, 256, 300, 520}).Draw(rt, "pn")))
+	}
 	nk := rapid.IntRange(0, 3).Draw(rt, "kw")
 	for i := 0; i < nk; i++ {
 		w := genWord(rt, "kword")
